@@ -17,6 +17,8 @@ VERIF = os.path.dirname(os.path.dirname(os.path.abspath(__file__)))
 WT = "/tmp/wt_rerun"
 BUILD = "/tmp/mut/build_rerun"
 # further checks that are expected to see a change recorded under another property
+# changes that only the thorough tier's oracles can see (minutes of run time)
+TIER = {"C10-6": "thorough"}
 EXTRA = {"C07-2": ["C18"], "C07-3": ["C10"], "C14-1": ["C01"], "C04-2": ["C03"], "C02-1": ["C14"]}
 
 
@@ -70,7 +72,7 @@ def main():
             env = dict(os.environ, VERIF_REPO=WT, VERIF_BUILD=BUILD)
             res, by = {}, []
             for c in checks:
-                k = sh(f"bin/check {c}", cwd=VERIF, env=env)
+                k = sh(f"bin/check {c} --tier {TIER.get(sid, 'quick')}", cwd=VERIF, env=env)
                 lines = [l[:400] for l in (k.stdout + k.stderr).split("\n") if l.strip()]
                 res[c] = {"exit": k.returncode, "lines": lines[:6]}
                 if k.returncode == 1:
